@@ -996,3 +996,77 @@ def replay_assemble(index, ob, seed, saved=None):
     for f in res.get("failures", []):
         return _r(True, input=f.get("input"), observed=f.get("observed", f.get("name")))
     return _r(False, cases=res.get("cases"))
+
+
+# ---- C18: the real converter with a fake LibreOffice executable ---------------------------------------------------------------------
+_FAKE_SOFFICE = r"""#!/bin/sh
+if [ "$1" = "--version" ]; then echo "LibreOffice 24.8.3.2 fake"; exit 0; fi
+fmt=""; outdir=""; input=""
+while [ $# -gt 0 ]; do
+  case "$1" in
+    --convert-to) fmt="$2"; shift 2 ;;
+    --outdir) outdir="$2"; shift 2 ;;
+    --*) shift ;;
+    *) input="$1"; shift ;;
+  esac
+done
+stem=$(basename "$input" .rtf)
+mode=$(cat "$(dirname "$0")/mode")
+case "$mode" in
+  ok) printf 'CONVERTED' > "$outdir/$stem.$fmt"; exit 0 ;;
+  fail_after_output) printf 'TRUNCATED' > "$outdir/$stem.$fmt"; exit 1 ;;
+  fail_before_output) exit 1 ;;
+  ok_no_output) exit 0 ;;
+esac
+"""
+
+
+def replay_converter(index, ob, seed, saved=None):
+    """write_docx / write_html / write_pdf through the REAL LibreOfficeConverter driven by a fake soffice executable that succeeds, fails
+    before writing, fails after writing a truncated output, or succeeds without output: on every failure the export must raise and leave a
+    pre-existing target byte-for-byte unchanged (no partial target where none existed)."""
+    import os, stat, tempfile, shutil, contextlib, io
+    import polars as pl
+    rtf = index.real_module("rtflite")
+    conv_mod = index.real_module("rtflite.convert")
+    tmp = tempfile.mkdtemp(prefix="verif_c18conv_")
+    try:
+        bindir = os.path.join(tmp, "bin")
+        os.makedirs(bindir)
+        exe = os.path.join(bindir, "soffice")
+        with open(exe, "w") as f:
+            f.write(_FAKE_SOFFICE)
+        os.chmod(exe, os.stat(exe).st_mode | stat.S_IXUSR | stat.S_IXGRP | stat.S_IXOTH)
+        doc = rtf.RTFDocument(df=pl.DataFrame({"A": ["a", "b"]}))
+        for mode in ("fail_after_output", "fail_before_output", "ok_no_output", "ok"):
+            for fmt, meth in (("docx", "write_docx"), ("pdf", "write_pdf"), ("html", "write_html")):
+                for pre in (True, False):
+                    case = {"converter": mode, "format": fmt, "target_exists_before": pre}
+                    if saved is not None and case != saved.get("input", saved):
+                        continue
+                    with open(os.path.join(bindir, "mode"), "w") as f:
+                        f.write(mode)
+                    target = os.path.join(tmp, f"out_{mode}_{fmt}_{int(pre)}", f"report.{fmt}")
+                    os.makedirs(os.path.dirname(target), exist_ok=True)
+                    if pre:
+                        with open(target, "wb") as f:
+                            f.write(b"ORIGINAL")
+                    raised = None
+                    try:
+                        with contextlib.redirect_stdout(io.StringIO()), contextlib.redirect_stderr(io.StringIO()):
+                            converter = conv_mod.LibreOfficeConverter(executable_path=exe)
+                            getattr(doc, meth)(target, converter=converter)
+                    except Exception as e:
+                        raised = type(e).__name__
+                    now = open(target, "rb").read() if os.path.exists(target) else None
+                    if mode == "ok":
+                        if raised or now != b"CONVERTED":
+                            return _r(True, input=case, observed=f"raised={raised}, target={now!r}", expected="target holds the converter's output")
+                        continue
+                    if raised is None:
+                        return _r(True, input=case, observed=f"no exception; target now {now!r}", expected="the export raises")
+                    if now != (b"ORIGINAL" if pre else None):
+                        return _r(True, input=case, observed=f"target now {now!r}", expected="ORIGINAL" if pre else "no target")
+    finally:
+        shutil.rmtree(tmp, ignore_errors=True)
+    return _r(False)
